@@ -196,7 +196,10 @@ def tlc(work, module, cfg=None, env=None, workers=1, timeout=900, extra=None, se
     cmd = ["timeout", str(timeout), "java"]
     if heap:
         cmd.append("-Xmx" + heap)
-    cmd += ["-XX:+UseParallelGC", "-Xss64m",
+    # TLC leaves an (empty) directory per run in java.io.tmpdir: keep that inside the scratch directory
+    jtmp = work.path("jtmp")
+    os.makedirs(jtmp, exist_ok=True)
+    cmd += ["-Djava.io.tmpdir=" + jtmp, "-XX:+UseParallelGC", "-Xss64m",
             "-cp", "/opt/veriftools/tla/tla2tools.jar:/opt/veriftools/tla/CommunityModules-deps.jar",
             "tlc2.TLC", "-workers", str(workers), "-metadir", work.path("md%d" % n),
             "-config", cfg]
